@@ -6,7 +6,7 @@ the adapters' readiness callbacks and waker registration — is only exercised h
 from . import core
 from .c14 import split_blocks
 
-WATCH = [10, 12, 14]
+WATCH = [10, 12, 14, 64]
 BURSTS = [1, 1, 2, 3, 15, 16, 17, 32, 33, 48, 64]
 
 
